@@ -130,8 +130,11 @@ theorem tx_serialize_parse (b : Bytes) (t : Tx) (rest : Bytes) (hp : Tx.parse b 
     Tx.Valid t ∧ b = Tx.ser true t ++ rest := tx_ser_parse b t rest hp
 
 /-- the stripped serialization (`include_witness=False`, what txid hashes) parses to the stripped
-    transaction -/
-theorem tx_parse_serialize_stripped (t : Tx) (rest : Bytes) (hv : Tx.Valid t) :
+    transaction.  PARTIAL in the same sense as `tx_parse_serialize_partial`: `Tx.Valid` excludes the shape
+    "no input, exactly one output", whose stripped encoding `… 00 01 …` reads as the segwit marker too.
+    Full statement (false for that one shape, see `tx_no_input_one_output_never_round_trips`):
+      ∀ t rest, Tx.StructValid t → Tx.parse (Tx.ser false t ++ rest) = .ok (t.strip, rest) -/
+theorem tx_parse_serialize_stripped_partial (t : Tx) (rest : Bytes) (hv : Tx.Valid t) :
     Tx.parse (Tx.ser false t ++ rest) = .ok (t.strip, rest) := tx_parse_ser_stripped t rest hv
 
 /-- segwit marker rule: an accepted encoding carries the marker `00 01` after the version exactly
@@ -282,6 +285,39 @@ theorem cfilter_lawful : Lawful cfilter := lawful_cfilter
 theorem cfheaders_lawful : Lawful cfheaders := lawful_cfheaders
 theorem getcfcheckpt_lawful : Lawful getcfcheckpt := lawful_getcfcheckpt
 theorem cfcheckpt_lawful : Lawful cfcheckpt := lawful_cfcheckpt
+theorem getblocks_getheaders_valid_iff (t : Int × List Bytes × Bytes) :
+    locator.valid t ↔ (-(2 ^ 31 : Int) ≤ t.1 ∧ t.1 < 2 ^ 31) ∧
+      ((t.2.1.length ≤ Gen.VarInt.MAX_SIZE ∧ t.2.1.length ≤ Gen.Wire.MAX_LOCATOR_SZ) ∧ ∀ x ∈ t.2.1, x.length = 32) ∧
+      t.2.2.length = 32 := locator_valid t
+theorem getcfilters_getcfheaders_valid_iff (t : Nat × Nat × Bytes) :
+    filterRange.valid t ↔ t.1 < 256 ∧ t.2.1 < 2 ^ 32 ∧ t.2.2.length = 32 := filterRange_valid t
+theorem cfilter_valid_iff (t : Nat × Bytes × Bytes) :
+    cfilter.valid t ↔ t.1 < 256 ∧ t.2.1.length = 32 ∧ t.2.2.length ≤ Gen.VarInt.MAX_SIZE := cfilter_valid t
+theorem cfheaders_valid_iff (t : Nat × Bytes × Bytes × List Bytes) :
+    cfheaders.valid t ↔ t.1 < 256 ∧ t.2.1.length = 32 ∧ t.2.2.1.length = 32 ∧
+      (t.2.2.2.length ≤ Gen.VarInt.MAX_SIZE ∧ t.2.2.2.length ≤ Gen.Wire.MAX_GETCFHEADERS_SIZE) ∧
+      ∀ x ∈ t.2.2.2, x.length = 32 := cfheaders_valid t
+theorem getcfcheckpt_valid_iff (t : Nat × Bytes) : getcfcheckpt.valid t ↔ t.1 < 256 ∧ t.2.length = 32 :=
+  getcfcheckpt_valid t
+theorem cfcheckpt_valid_iff (t : Nat × Bytes × List Bytes) :
+    cfcheckpt.valid t ↔ t.1 < 256 ∧ t.2.1.length = 32 ∧
+      (t.2.2.length ≤ Gen.VarInt.MAX_SIZE ∧ t.2.2.length < 2 ^ 64) ∧ ∀ x ∈ t.2.2, x.length = 32 := cfcheckpt_valid t
+/-- the fixed part of `Version` -/
+theorem version_body_valid_iff (v : Version) :
+    versionBody.valid v ↔ (-(2 ^ 31 : Int) ≤ v.version ∧ v.version < 2 ^ 31) ∧ v.services < 2 ^ 64 ∧
+      (-(2 ^ 63 : Int) ≤ v.timestamp ∧ v.timestamp < 2 ^ 63) ∧ netAddr.valid v.addrRecv ∧ netAddr.valid v.addrFrom ∧
+      v.nonce < 2 ^ 64 ∧ v.userAgent.length ≤ Gen.VarInt.MAX_SIZE ∧
+      (-(2 ^ 31 : Int) ≤ v.startHeight ∧ v.startHeight < 2 ^ 31) := versionBody_valid v
+example : filterRange.parseAll (filterRange.ser (0, 800000, List.replicate 32 5)) = .ok (0, 800000, List.replicate 32 5) := by
+  decide
+example : cfilter.parseAll (cfilter.ser (0, List.replicate 32 5, [1, 2, 3])) = .ok (0, List.replicate 32 5, [1, 2, 3]) := by
+  decide
+example : cfheaders.parseAll (cfheaders.ser (0, List.replicate 32 5, List.replicate 32 6, [List.replicate 32 7, List.replicate 32 8]))
+    = .ok (0, List.replicate 32 5, List.replicate 32 6, [List.replicate 32 7, List.replicate 32 8]) := by decide
+example : getcfcheckpt.parseAll (getcfcheckpt.ser (255, List.replicate 32 5)) = .ok (255, List.replicate 32 5) := by decide
+example : cfcheckpt.parseAll (cfcheckpt.ser (0, List.replicate 32 5, [List.replicate 32 7])) = .ok (0, List.replicate 32 5, [List.replicate 32 7]) := by
+  decide
+example : sendCmpct.parseAll (sendCmpct.ser (1, 2)) = .ok (1, 2) := by decide
 example : sendCmpct.parseAll [2, 1, 0, 0, 0, 0, 0, 0, 0] = .error .badFlag
     ∧ sendCmpct.parseAll [1, 2, 0, 0, 0, 0, 0, 0, 0] = .ok (1, 2) := by decide
 /-- `Headers`: each header is followed by a transaction count that is exactly `00` -/
@@ -409,6 +445,11 @@ def EmptyValueKind (s : Spec) (r : Rec) : Prop :=
 def FinalizerFieldKind (s : Spec) (recs : List Rec) (r : Rec) : Prop :=
   s.finalized recs = true ∧ s.known (tyOf r.1) = true ∧ s.droppedOnceFinal.contains (tyOf r.1) = true
 
+/-- the parse side and the serialize side of the global map agree on what belongs to version 0 alone (both
+    lists are read off the syntax tree: `_parse_global_map` refuses it elsewhere, `Psbt.serialize` writes it
+    under the version 0 arm only) -/
+theorem psbt_global_v0_tables_agree : Gen.Wire.PSBT_GLOBAL_V0_WRITTEN = Gen.Wire.PSBT_GLOBAL_V0_ONLY := by decide
+
 theorem psbt_in_tables_wellformed : specIn.WF := wf_specIn
 theorem psbt_out_tables_wellformed : specOut.WF := wf_specOut
 theorem psbt_global_tables_wellformed : specGlobal.WF := wf_specGlobal
@@ -432,6 +473,61 @@ theorem psbt_parse_admits_only_what_serialize_writes (s : Spec) (wf : s.WF) (ver
     (h : s.recordOk ver r = true) : s.gated ver (tyOf r.1) = false :=
   recordOk_not_gated s wf ver r h
 
+/-- version gating, parse side: `parse` and `serialize` take the versions of `assert_valid_psbt_version` (0 and
+    2, regenerated) and refuse every other number whatever the map holds -/
+theorem psbt_other_versions_refused (s : Spec) (ver : Nat) (b : Bytes) (h : ver ≠ 0 ∧ ver ≠ 2) :
+    ∃ e, reser s ver b = .error e := by
+  have hadm : admitsVersion ver = false := by
+    cases hb : admitsVersion ver
+    · rfl
+    · rcases (admitsVersion_iff ver).1 hb with h0 | h2
+      · exact absurd h0 h.1
+      · exact absurd h2 h.2
+  unfold reser
+  split
+  · exact ⟨_, rfl⟩
+  · simp [hadm]
+
+/-- version gating, parse side: a field of the version-2 table in a map read at version 0, or a version-0-only
+    field in a map read at another version, makes `reser` refuse -/
+theorem psbt_wrong_version_field_refused (s : Spec) (ver : Nat) (b : Bytes) (recs : List Rec) (r : Rec)
+    (hp : parseMap b = .ok (recs, [])) (hr : r ∈ recs)
+    (hf : (ver = 0 ∧ tyOf r.1 ∈ s.v2) ∨ (ver ≠ 0 ∧ tyOf r.1 ∈ s.v0only)) :
+    ∃ e, reser s ver b = .error e := by
+  have hno : s.recordOk ver r = false := by
+    rcases hf with ⟨h0, hm⟩ | ⟨h0, hm⟩
+    · subst h0; simp [Spec.recordOk, hm]
+    · simp only [Spec.recordOk]
+      cases hv2 : (decide (ver = 0) && s.v2.contains (tyOf r.1))
+      · simp [h0, hm]
+      · simp
+  have hall : recs.all (s.recordOk ver) = false := by
+    rw [List.all_eq_false]
+    exact ⟨r, hr, by simp [hno]⟩
+  unfold reser
+  rw [hp]
+  simp only [List.isEmpty_nil, Bool.not_true, Bool.false_eq_true, if_false, hall, Bool.false_and]
+  split
+  · exact ⟨_, rfl⟩
+  · exact ⟨_, rfl⟩
+
+/-- version gating, serialize side, for ANY typed object (one built by the constructors included, where a
+    version 0 input does hold an outpoint and a sequence): the loop of `serialize` writes no record of a field
+    the version excludes -- such a record comes out only if the caller filed it under `unknown` -/
+theorem psbt_serialize_skips_other_version_fields (s : Spec) (wf : s.WF) (ver : Nat) (t : Typed) (r : Rec)
+    (hr : r ∈ toRecs s ver t) (hg : s.gated ver (tyOf r.1) = true) : r ∈ t.unknown :=
+  toRecs_gated s wf ver t r hr hg
+
+/-- duplicated key origins (`assert_valid_hd_key_paths`, reached whatever `check_validity` says): a map that
+    `reser` accepts has pairwise distinct values inside each derivation dict -/
+theorem psbt_reserialize_distinct_key_origins (s : Spec) (wf : s.WF) (ver : Nat) (b out : Bytes)
+    (h : reser s ver b = .ok out) :
+    ∃ recs, parseMap b = .ok (recs, []) ∧
+      ∀ ty ∈ s.hd, ((recs.filter (fun r => tyOf r.1 == ty)).map (·.2)).Nodup := by
+  obtain ⟨recs, hp, _, _, _, _, _, hd⟩ := reser_ok s wf ver b out h
+  refine ⟨recs, hp, ?_⟩
+  simpa [Spec.distinctOk, List.all_eq_true] using hd
+
 /-- hence: whenever `X.parse(b).serialize()` answers, its records are exactly the records of `b` that are
     of neither kind -- every other key-value pair, unknown ones included, is kept unaltered, and none is
     invented; any other dropped pair would contradict this. -/
@@ -440,7 +536,7 @@ theorem psbt_reserialize_keeps_all_but (s : Spec) (wf : s.WF) (ver : Nat) (b out
     ∃ recs recs', parseMap b = .ok (recs, []) ∧ parseMap out = .ok (recs', []) ∧
       recs' = toRecs s ver (fromRecs s recs) ∧ (ver = 0 ∨ ver = 2) ∧
       ∀ r, r ∈ recs' ↔ r ∈ recs ∧ ¬ EmptyValueKind s r ∧ ¬ FinalizerFieldKind s recs r := by
-  obtain ⟨recs, hp, _, hv, e, rfl, hver⟩ := reser_ok s wf ver b out h
+  obtain ⟨recs, hp, _, hv, e, rfl, hver, _⟩ := reser_ok s wf ver b out h
   refine ⟨recs, _, hp, parseMap_sorted_kept s recs hv, e.symm, hver, ?_⟩
   intro r
   rw [mem_sorted_kept]
@@ -505,7 +601,8 @@ theorem empty_value_kind_in_explicit (r : Rec) (h : EmptyValueKind specIn r) :
   unfold Spec.falsy at h2
   split at h2
   · cases h2
-  · simp only [specIn, List.lookup] at h2
+  · rw [specIn_emptyIs] at h2
+    simp only [List.lookup] at h2
     cases hb : (tyOf r.1 == Gen.Wire.PSBT_IN_FINAL_SCRIPTWITNESS)
     · rw [hb] at h2; left; simpa using h2
     · rw [hb] at h2; right; exact ⟨by simpa using hb, by simpa using h2⟩
@@ -516,7 +613,8 @@ theorem empty_value_kind_global_explicit (r : Rec) (h : EmptyValueKind specGloba
   unfold Spec.falsy at h2
   split at h2
   · cases h2
-  · simp only [specGlobal, List.lookup] at h2
+  · rw [specGlobal_emptyIs] at h2
+    simp only [List.lookup] at h2
     cases hb : (tyOf r.1 == Gen.Wire.PSBT_GLOBAL_VERSION)
     · rw [hb] at h2; left; simpa using h2
     · rw [hb] at h2; right; exact ⟨by simpa using hb, by simpa using h2⟩
@@ -525,6 +623,33 @@ theorem empty_value_kind_global_explicit (r : Rec) (h : EmptyValueKind specGloba
 theorem psbt_reserialize_fixed_point (s : Spec) (wf : s.WF) (ver : Nat) (b out : Bytes)
     (h : reser s ver b = .ok out) : reser s ver out = .ok out := reser_fixed s wf ver b out h
 
+-- the falsy / never-falsy tables computed from the generated value-kind tables
+example : specIn.objects = [Gen.Wire.PSBT_IN_NON_WITNESS_UTXO, Gen.Wire.PSBT_IN_WITNESS_UTXO]
+    ∧ specGlobal.objects = [Gen.Wire.PSBT_GLOBAL_UNSIGNED_TX] ∧ specOut.objects = [] ∧ specOut.emptyIs = []
+    ∧ specIn.hd = [6] ∧ specOut.hd = [2] ∧ specGlobal.hd = [1] := by decide
+-- version gating: at version 0 an input's sequence is refused by parse and skipped by serialize; the unsigned
+-- transaction is refused and skipped at version 2; no other version number is admitted
+example : specIn.recordOk 0 ([0x10], [1, 0, 0, 0]) = false ∧ specIn.recordOk 2 ([0x10], [1, 0, 0, 0]) = true
+    ∧ specIn.gated 0 0x10 = true ∧ specIn.gated 2 0x10 = false
+    ∧ specGlobal.gated 2 0 = true ∧ specGlobal.gated 0 0 = false ∧ specGlobal.gated 0 2 = true
+    ∧ admitsVersion 1 = false ∧ admitsVersion 3 = false ∧ admitsVersion 2 = true := by decide
+-- a constructed version 0 input holding a sequence and a redeem script: only the script is written
+example : emit specIn 0 ⟨[(0x10, [1, 0, 0, 0]), (4, [0x51])], [], []⟩ false 0x10 = []
+    ∧ emit specIn 0 ⟨[(0x10, [1, 0, 0, 0]), (4, [0x51])], [], []⟩ false 4 = [([4], [0x51])]
+    ∧ emit specIn 2 ⟨[(0x10, [1, 0, 0, 0]), (4, [0x51])], [], []⟩ false 0x10 = [([0x10], [1, 0, 0, 0])] := by
+  decide
+-- two derivations with the same key origin are refused; with different ones accepted
+example : specIn.distinctOk [(6 :: List.replicate 33 2, [1, 2, 3, 4]), (6 :: List.replicate 33 3, [1, 2, 3, 4])] = false
+    ∧ specIn.distinctOk [(6 :: List.replicate 33 2, [1, 2, 3, 4]), (6 :: List.replicate 33 3, [1, 2, 3, 5])] = true := by
+  decide
+-- value checks that run whatever `check_validity` says: an output above MAX_MONEY, a negative one, a
+-- non-witness utxo spending one outpoint twice
+example : valueOkBy Gen.Wire.PSBT_IN_KINDS 1 (leBytes 8 2100000000000001 ++ [0]) = false
+    ∧ valueOkBy Gen.Wire.PSBT_IN_KINDS 1 (leBytes 8 2100000000000000 ++ [0]) = true
+    ∧ valueOkBy Gen.Wire.PSBT_IN_KINDS 1 (List.replicate 8 255 ++ [0]) = false := by decide
+example : (⟨1, 0, [⟨⟨List.replicate 32 7, 0⟩, [], 0, []⟩, ⟨⟨List.replicate 32 7, 0⟩, [], 1, []⟩], [⟨1, []⟩]⟩ : Tx).assertValid false = false
+    ∧ (⟨1, 0, [⟨⟨List.replicate 32 7, 0⟩, [], 0, []⟩, ⟨⟨List.replicate 32 7, 1⟩, [], 1, []⟩], [⟨1, []⟩]⟩ : Tx).assertValid false = true
+    ∧ (⟨1, 0, [], []⟩ : Tx).assertValid true = true ∧ (⟨1, 0, [], []⟩ : Tx).assertValid false = false := by decide
 -- an explicit sighash type of zero is a record (kept); an empty redeem script is normalised away; a partial
 -- signature goes once the input is finalized; an unknown record stays even then; a version-0 record goes
 example : specIn.dropped false ([3], [0, 0, 0, 0]) = false ∧ specIn.dropped false ([4], []) = true
